@@ -99,6 +99,18 @@ WriteEnd(p) ==
     /\ wr' = [wr EXCEPT ![p] = "written"] /\ disk' = [disk EXCEPT ![p] = "good"]
     /\ UNCHANGED <<exist, phase, aidx, almiss, alexist, memKnown, memBit, dbKnown, dbBit, txnActive, txnBits>>
 
+\* a storage write of one of the piece's file sections fails (any section: the content stays partial), the write of
+\* the piece ends with that error (Resume.tla, cfg.werr = "first") and the loop stops the torrent without marking the piece
+WriteFail(p) ==
+    /\ wr[p] = "writing"
+    /\ wr' = [wr EXCEPT ![p] = "failed"]
+    /\ UNCHANGED <<disk, exist, phase, aidx, almiss, alexist, memKnown, memBit, dbKnown, dbBit, txnActive, txnBits>>
+
+FailHandled(p) ==
+    /\ phase = "run" /\ wr[p] = "failed"
+    /\ wr' = [wr EXCEPT ![p] = "idle"]
+    /\ UNCHANGED <<disk, exist, phase, aidx, almiss, alexist, memKnown, memBit, dbKnown, dbBit, txnActive, txnBits>>
+
 SetBit(p) ==
     /\ phase = "run" /\ wr[p] = "written"
     /\ wr' = [wr EXCEPT ![p] = "idle"] /\ memBit' = memBit \cup {p}
@@ -131,7 +143,7 @@ DeleteFiles(F) ==
 
 Next ==
     \/ Restart \/ AllocInvalidate \/ AllocOpen \/ AllocDone \/ VerifyDone
-    \/ \E p \in Piece : WriteBegin(p) \/ WriteEnd(p) \/ SetBit(p)
+    \/ \E p \in Piece : WriteBegin(p) \/ WriteEnd(p) \/ WriteFail(p) \/ FailHandled(p) \/ SetBit(p)
     \/ PersistBegin \/ PersistCommit \/ Crash
     \/ \E F \in SUBSET File : DeleteFiles(F)
 
@@ -139,7 +151,7 @@ Next ==
 TypeOK ==
     /\ disk \in [Piece -> {"nil", "partial", "good"}] /\ exist \in [File -> BOOLEAN]
     /\ phase \in {"down", "alloc", "verify", "run"} /\ aidx \in 0 .. NF
-    /\ almiss \in BOOLEAN /\ alexist \in BOOLEAN /\ wr \in [Piece -> {"idle", "writing", "written"}]
+    /\ almiss \in BOOLEAN /\ alexist \in BOOLEAN /\ wr \in [Piece -> {"idle", "writing", "written", "failed"}]
     /\ memKnown \in BOOLEAN /\ memBit \in SUBSET Piece /\ dbKnown \in BOOLEAN /\ dbBit \in SUBSET Piece
     /\ txnActive \in BOOLEAN /\ txnBits \in SUBSET Piece
 
